@@ -488,6 +488,10 @@ def file_is_text(run, I, m, writer, kw, label):
     txt = I.call_function(m, fn, [], dict(kw))
     I.files.pop(fname, None)
     out = I.call_function(m, fn, [], dict(kw, filename=fname))
+    if isinstance(out, Raised) and not isinstance(txt, Raised) and out.exc == 'AttributeError':
+        # the file model of the interpreter knows write() and close() only: another method of a real file object
+        # (writelines, ...) shows up as a missing attribute - not decidable here, not a finding
+        raise Unsupported('%s(filename=...) uses a method of the file object that is not modelled' % writer)
     if isinstance(txt, Raised) or isinstance(out, Raised):
         run.fail('DATAFLOW.write', 'chemkin.' + writer, label + ' to a file', 'raises %s'
                  % (out.exc if isinstance(out, Raised) else txt.exc), m, fn)
@@ -621,6 +625,17 @@ def run_files(run, repo):
         run.check(ok, 'DATAFLOW.mole-fraction', 'chemkin.write_tube_mole', 'values per run',
                   'line of %s does not carry its mole fraction in every run (0 when absent): %s' % (s_.name, show(ln, 160)),
                   m, fn)
+        # the 'species/phase/' pair: a gas species belongs to the phase GAS, an adsorbate to its catalyst site
+        texts = [f.value for f in fs if f.cls != 'num']
+        if s_.attrs['phase'].upper() == 'G':
+            okp = texts == [s_.attrs['name']] and lit.count('/GAS/') == 1
+            where = 'GAS'
+        else:
+            okp = texts == [s_.attrs['name'], s_.attrs['cat_site'].attrs['name']] and 'GAS' not in lit
+            where = 'its catalyst site'
+        run.check(okp, 'DATAFLOW.phase', 'chemkin.write_tube_mole', 'species/phase/ pair',
+                  'line of %s (phase %s) must name the species once, in the phase %s: %s'
+                  % (s_.name, s_.attrs['phase'], where, show(ln, 160)), m, fn)
     file_is_text(run, I, m, 'write_tube_mole', {'mole_frac_conditions': conds, 'nasa_species': ListV(sp)},
                  'tube_mole.inp')
 
@@ -706,6 +721,7 @@ def check(run, repo):
 
 
 K_ = 'pmutt/io/chemkin.py'
+R_ = 'pmutt/reaction/__init__.py'
 MUTANTS = [
     {'name': 'T_flow columns separated by a fixed blank', 'expect': ('DATAFLOW.option', 'write_T_flow'),
      'edits': [(K_, "            line_field.format(T_i, column_delimiter, P_i, column_delimiter,\n                              Q_i, column_delimiter, abyv_i, i + 1))", "            line_field.format(T_i, ' ', P_i, ' ',\n                              Q_i, ' ', abyv_i, i + 1))")]},
@@ -718,16 +734,35 @@ MUTANTS = [
     {'name': 'EA count from all reactions', 'expect': ('DATAFLOW.count', 'write_EA'),
      'edits': [(K_, '    n_reactions = len(valid_reactions)', '    n_reactions = len(reactions)')]},
     {'name': 'surf.inp also filters gas reactions in', 'expect': ('DATAFLOW.once', 'write_surf'),
-     'edits': [(K_, '    surf_reactions = [\n        reaction for reaction in reactions if not reaction.gas_phase\n    ]', '    surf_reactions = [\n        reaction for reaction in reactions if reaction.gas_phase\n    ]')]},
+     'edits': [(K_, '        [reaction for reaction in reactions if not reaction.gas_phase]', '        [reaction for reaction in reactions if reaction.gas_phase]')]},
     {'name': 'Ea field formatted from A', 'expect': ('DATAFLOW.Ea', ''),
      'edits': [(K_, '        Ea_str = float_field.format(Ea)', '        Ea_str = float_field.format(A)')]},
     {'name': 'beta field from sticking coefficient', 'expect': ('DATAFLOW.beta', ''),
      'edits': [(K_, '        beta_str = float_field.format(reaction.beta)', '        beta_str = float_field.format(reaction.sticking_coeff if reaction.is_adsorption else reaction.beta)')]},
     {'name': 'T_flow swaps Q and abyv', 'expect': ('DATAFLOW.T_flow', 'write_T_flow'),
-     'edits': [(K_, '                              column_delimiter, Q_i, column_delimiter,\n                              abyv_i, i + 1))', '                              column_delimiter, abyv_i, column_delimiter,\n                              Q_i, i + 1))')]},
+     'edits': [(K_, '                              Q_i, column_delimiter, abyv_i, i + 1))', '                              abyv_i, column_delimiter, Q_i, i + 1))')]},
     {'name': 'tube_mole counts all species', 'expect': ('DATAFLOW.count', 'write_tube_mole'),
      'edits': [(K_, "'{:<3}    Number of nonzero species'.format(len(unique_species)),", "'{:<3}    Number of nonzero species'.format(len(nasa_species)),")]},
     {'name': 'site density of the first site for every site', 'expect': ('DATAFLOW.site', 'write_surf'),
      'edits': [(K_, "            cat_site_name, cat_site.site_density))", "            cat_site_name, unique_cat_sites[0].site_density))")]},
+    # ---- instances added after the white-box review (whitebox/C06.md)
+    {'name': 'bulk species recognised by a phase label B instead of the site\'s bulk_specie', 'expect': ('DATAFLOW.once', 'write_surf'),
+     'edits': [(K_, "        if specie.cat_site.bulk_specie == specie.name:\n            continue\n\n        cat_name", "        if specie.phase.upper() == 'B':\n            continue\n\n        cat_name")]},
+    {'name': 'bulk species counted as a surface reactant', 'expect': ('REF.A', 'write_surf'),
+     'edits': [(R_, "            # Skip bulk species\n            if specie.cat_site.bulk_specie == specie.name:\n                continue\n", "")]},
+    {'name': 'entropy switch by substring misses get_GoRT_act', 'expect': ('DATAFLOW.A', ''),
+     'edits': [(K_, "            if act_method_name in ('get_GoRT_act', 'get_G_act',\n                                   'get_delta_GoRT', 'get_delta_G'):", "            if 'G_act' in act_method_name or 'delta_G' in act_method_name:")]},
+    {'name': 'reader splits the sides at + only', 'expect': ('TABLE.readback', 'read_reactions'),
+     'edits': [(K_, "        Reactants.append(re.split(r' *\\+ *| +', Reacs))\n        Products.append(re.split(r' *\\+ *| +', Prods))", "        Reactants.append(Reacs.split('+'))\n        Products.append(Prods.split('+'))")]},
+    {'name': 'EAs.inp written to the file without line ends', 'expect': ('DATAFLOW.file', 'write_EA'),
+     'edits': [(K_, "            f_ptr.write(lines_out)\n    else:\n        return lines_out\n\n\ndef write_gas(", "            f_ptr.write(''.join(lines))\n    else:\n        return lines_out\n\n\ndef write_gas(")]},
+    {'name': 'T_flow.inp file loses its last run', 'expect': ('DATAFLOW.file', 'write_T_flow'),
+     'edits': [(K_, "            f_ptr.write(lines_out)\n    else:\n        return lines_out\n\n\ndef write_tube_mole(", "            f_ptr.write('\\n'.join(lines[:-2] + lines[-1:]))\n    else:\n        return lines_out\n\n\ndef write_tube_mole(")]},
+    {'name': 'tube_mole.inp file without the count line', 'expect': ('DATAFLOW.file', 'write_tube_mole'),
+     'edits': [(K_, "            f_ptr.write(lines_out)\n    else:\n        return lines_out\n\n\ndef _get_max_reaction_len(", "            f_ptr.write('\\n'.join(ln for ln in lines if 'Number of' not in ln))\n    else:\n        return lines_out\n\n\ndef _get_max_reaction_len(")]},
+    {'name': 'transition state inside the equations of the EA file', 'expect': ('DATAFLOW.equation', 'write_EA'),
+     'edits': [(K_, "                                   stoich_format=stoich_format,\n                                   include_TS=False))\n        ]", "                                   stoich_format=stoich_format))\n        ]")]},
+    {'name': 'adsorbates filed under /GAS/ in tube_mole.inp', 'expect': ('DATAFLOW.phase', 'write_tube_mole'),
+     'edits': [(K_, "        if specie.phase.upper() == 'G':\n            phase = '/GAS/'", "        if specie.cat_site is None or specie.phase.upper() in 'GAS':\n            phase = '/GAS/'")]},
 ]
 EQUIV = []
